@@ -10,6 +10,39 @@ from . import gen_enc
 
 GEN_PT = [0x04, 0x05, 0x09, 0x0A, 0xFF, 0x0D]
 
+# endpoint families whose members coincide under plausible wrong packings of the (device id, stream id) key:
+# dev | stream << 8, (dev << 8 | stream) & 0xFFFF, dev + stream, dev ^ stream, device only, stream only
+COLLIDING = [
+    [(0x0003, 1), (0x0103, 1), (0x0103, 0)],        # dev | stream << 8
+    [(0x0101, 2), (0x0301, 0), (0x0201, 3)],        # (stream << 8) | dev
+    [(0x0102, 3), (0x0002, 3), (0x0202, 3)],        # (dev << 8 | stream) truncated to 16 bits
+    [(5, 3), (6, 2), (4, 4)],                       # dev + stream
+    [(5, 6), (6, 5), (3, 0)],                       # dev ^ stream
+    [(7, 1), (7, 2)], [(1, 9), (2, 9)],             # device only / stream only
+]
+
+
+def pick_endpoints(rng, k):
+    fam = rng.choice(COLLIDING)
+    eps = list(fam)
+    rng.shuffle(eps)
+    eps = eps[:k]
+    while len(eps) < k:
+        e = (rng.choice([1, 2, 0xFFFF, 300]), rng.choice([0, 7, 255]))
+        if e not in eps:
+            eps.append(e)
+    return eps
+
+
+def tecmp_runt(rng, ep):
+    """a truncated TECMP buffer (first byte 0x00, 8..27 bytes) whose bytes 2..3 and 5 happen to spell the ids of endpoint ep"""
+    n = rng.randrange(8, 28)
+    b = bytearray(proto.rand_bytes(rng, n))
+    b[0] = 0
+    b[2:4] = be(ep[0], 2)
+    b[5] = ep[1]
+    return bytes(b)
+
 
 # ---- helpers --------------------------------------------------------------------------
 
@@ -97,10 +130,7 @@ def gen_c05(tier, rng):
     n = 700 if tier == "quick" else 10000
     for _ in range(n):
         k = rng.randrange(1, 5)
-        eps = set()
-        while len(eps) < k:
-            # endpoints that share a device id or a stream id
-            eps.add((rng.choice([1, 2, 0xFFFF]), rng.choice([0, 7, 255])))
+        eps = pick_endpoints(rng, k)
         streams = [SegStream(rng, d, s, rng.randrange(1, 4), max_seg=rng.choice([4, 40, 300])) for d, s in eps]
         lists = [st.frames for st in streams]
         # unsegmented traffic of a further endpoint in between
@@ -109,6 +139,8 @@ def gen_c05(tier, rng):
             m, _d = rand_msg(rng, kind="gen")
             other.append((frame_header(1, 9, 1, 9, rng.getrandbits(16)) + m, None))
         lists.append(other)
+        # truncated TECMP buffers that spell the ids of one of the endpoints, and short buffers: never frames of any endpoint
+        lists.append([(tecmp_runt(rng, rng.choice(eps)), "pk 0") for _j in range(rng.randrange(0, 3))])
         order = interleave(rng, lists)
         ops, exp = [], []
         for i, (fr, e) in order:
@@ -179,6 +211,7 @@ def gen_c17(tier, rng):
                 letters.append((ei, nm, good))
     letters.append((None, "tecmp", True))
     letters.append((None, "short", True))
+    letters.append((None, "runt", True))
     depth = 3 if tier == "quick" else 4
     for L in range(1, depth + 1):
         for hist in itertools.product(range(len(letters)), repeat=L):
@@ -187,7 +220,7 @@ def gen_c17(tier, rng):
             for h in hist:
                 ei, nm, good = letters[h]
                 if ei is None:
-                    b = TECMP_SAMPLE if nm == "tecmp" else b"\x01\x00\x00"
+                    b = TECMP_SAMPLE if nm == "tecmp" else (b"\x01\x00\x00" if nm == "short" else bytes([0, 9, 0, 1, 9, 1, 9, 9, 9, 9, 9, 9]))
                 else:
                     d, s = eps[ei]
                     fr = alphabet_frames(rng, d, s, 0)[nm]
@@ -233,13 +266,15 @@ def random_histories(tier, rng, n, with_pending=False, length=(5, 40)):
     cases = []
     for _ in range(n):
         k = rng.randrange(1, 5)
-        eps = list({(rng.choice([1, 2, 300]), rng.choice([0, 1, 255])) for _ in range(k)})
+        eps = pick_endpoints(rng, k)
         seqs = [rng.choice([0, 65534, 1000]) for _ in eps]
         ops = []
         for _j in range(rng.randrange(*length)):
             r = rng.random()
-            if r < 0.05:
+            if r < 0.03:
                 ops.append(feed(TECMP_SAMPLE))
+            elif r < 0.07:
+                ops.append(feed(tecmp_runt(rng, rng.choice(eps))))
             elif r < 0.08:
                 ops.append(feed(proto.rand_bytes(rng, rng.randrange(0, 8))))
             elif r < 0.10:
